@@ -1263,7 +1263,7 @@ bool Socket::Poll::Private::poll(Event& event, int64 timeout)
   if(selectedSockets.isEmpty())
   {
     epoll_event events[64];
-    int count = ::epoll_wait(fd, events, sizeof(events) / sizeof(*events), timeout);
+    int count = ::epoll_wait(fd, events, sizeof(events) / sizeof(*events), timeout > 0x7fffffff ? 0x7fffffff : (int)timeout);
     bool interrupted = false;
     for(epoll_event* i = events, * end = events + count; i < end; ++i)
     {
@@ -1435,7 +1435,7 @@ bool Socket::Poll::Private::poll(Event& event, int64 timeout)
 {
   if(selectedSockets.isEmpty())
   {
-    int count = ::poll(pollfds, pollfds.size(), timeout);
+    int count = ::poll(pollfds, pollfds.size(), timeout > 0x7fffffff ? 0x7fffffff : (int)timeout);
     if(count > 0)
     {
       for(pollfd* i = pollfds + 1, * end = i + pollfds.size(); i < end; ++i)
